@@ -41,6 +41,9 @@ EXTRA_STANDINS = {
     "xsink": {"props": {"C17"}, "short": "real text of both event sinks, every operation sequence up to the bound",
               "unit_of_count": "operation sequences", "scenario_word": "operation sequence",
               "what": "contracts/xsink.rs: ports/sink/event_buffer.rs and event_slot.rs (whole files) and the sink traits cut from /repo with no rewrite rule and compiled as they stand; every operation sequence up to the bound on one thread compared with a reference queue / option. LABELLED BOUNDED: not part of obligations/discharged."},
+    "xexec": {"props": {"C06", "C11"}, "short": "real text of the single-threaded executor's run loop and report, every task script up to the bound",
+              "unit_of_count": "task scripts", "scenario_word": "script",
+              "what": "contracts/xexec.rs: ExecutorInner::run (+ ExecutorInner, its Drop, ExecutorContext) of executor/st_executor.rs, ExecutorError, ModelId and macros/scoped_thread_local.rs cut from /repo with no rewrite rule, compiled against scripted tasks; every script up to the bound, also nested in an enclosing executor, compared with C06 (sent minus received, nothing leaked from or into the enclosing executor) and C11 (a panic is reported as Panic with the model and payload). Single-threaded executor only. LABELLED BOUNDED: not part of obligations/discharged."},
     "xpq": {"props": {"C20", "C07"}, "short": "real text of both priority queues, every operation sequence up to the bound",
             "unit_of_count": "operation sequences", "scenario_word": "operation sequence",
             "what": "contracts/xpq.rs: util/priority_queue.rs and util/indexed_priority_queue.rs, each file whole up to its test module, cut from /repo with no rewrite rule and compiled as they stand; every operation sequence up to the bound compared with a reference list. LABELLED BOUNDED: not part of obligations/discharged."},
